@@ -303,6 +303,8 @@ def run_gate_native(run: Run, plugins: List[str], tmp: str) -> int:
 
     mk("sinceTags holds integers", lambda d: d["structures"][0].__setitem__("sinceTags", [1, 2]))
     mk("unknown top-level key", lambda d: d.__setitem__("garbage", 1))
+    mk("top-level $schema key", lambda d: d.__setitem__("$schema", "./lsp.schema.json"))
+    mk("top-level $comment key", lambda d: d.__setitem__("$comment", "edited by hand"))
     mk("map key of a non-key base type", lambda d: [t for _, t, c in walk_doc(d) if c == "BaseMapKeyType"][0].__setitem__("name", "boolean"))
     mk("enumeration value entry without name", lambda d: d["enumerations"][0]["values"][0].pop("name"))
     mk("messageDirection misspelt", lambda d: d["notifications"][0].__setitem__("messageDirection", "sideways"))
